@@ -148,12 +148,30 @@ func flattenTree(root *clipper.PolyPathBase, k float64, isD bool) []TreeNode {
 	return out
 }
 
-// exec runs one execution form with pre-filled solution arguments (they must be replaced)
-func (g *eng) exec(form string, ct, fr int) (sol, solOpen Paths, tree []TreeNode, ok bool) {
+// exec runs one execution form. prefill: the solution arguments already hold data (a large square and a
+// line), which the call must replace; the reference engines are run with empty arguments, so anything
+// that survives shows both as a sequence difference and as a wrong region
+func (g *eng) exec(form string, ct, fr int, prefill bool) (sol, solOpen Paths, tree []TreeNode, ok bool) {
 	c, f := clipper.ClipType(ct), clipper.FillRule(fr)
 	tree = []TreeNode{}
-	junk64 := func() clipper.Paths64 { return clipper.Paths64{{{X: 7, Y: 7}, {X: 9, Y: 9}}} }
-	junkD := func() clipper.PathsD { return clipper.PathsD{{{X: 7, Y: 7}, {X: 9, Y: 9}}} }
+	junk64 := func() clipper.Paths64 {
+		if !prefill {
+			return clipper.Paths64{}
+		}
+		return clipper.Paths64{{{X: -300, Y: -300}, {X: 300, Y: -300}, {X: 300, Y: 300}, {X: -300, Y: 300}}, {{X: 7, Y: 7}, {X: 9, Y: 9}}}
+	}
+	junkD := func() clipper.PathsD {
+		if !prefill {
+			return clipper.PathsD{}
+		}
+		return clipper.PathsD{{{X: -300, Y: -300}, {X: 300, Y: -300}, {X: 300, Y: 300}, {X: -300, Y: 300}}, {{X: 7, Y: 7}, {X: 9, Y: 9}}}
+	}
+	junkTree := func(t *clipper.PolyPathBase) {
+		if prefill {
+			ch := t.AddChild(clipper.Path64{{X: -300, Y: -300}, {X: 300, Y: -300}, {X: 300, Y: 300}, {X: -300, Y: 300}})
+			ch.AddChild(clipper.Path64{{X: 1, Y: 1}, {X: 2, Y: 3}, {X: 3, Y: 1}})
+		}
+	}
 	if g.kind == "D" {
 		switch form {
 		case "closed":
@@ -166,7 +184,7 @@ func (g *eng) exec(form string, ct, fr int) (sol, solOpen Paths, tree []TreeNode
 			sol, solOpen = fromPathsDScaled(s, g.scale), fromPathsDScaled(o, g.scale)
 		default:
 			t := clipper.NewPolyTreeD()
-			t.AddChild(clipper.Path64{{X: 1, Y: 1}, {X: 2, Y: 2}, {X: 3, Y: 1}})
+			junkTree(t.PolyPathBase)
 			o := junkD()
 			ok = g.cD.ExecutePolyTreeD(c, f, t, &o)
 			tree = flattenTree(t.PolyPathBase, 1, true)
@@ -184,7 +202,7 @@ func (g *eng) exec(form string, ct, fr int) (sol, solOpen Paths, tree []TreeNode
 			sol, solOpen = fromPaths64(s), fromPaths64(o)
 		default:
 			t := clipper.NewPolyTree64()
-			t.AddChild(clipper.Path64{{X: 1, Y: 1}, {X: 2, Y: 2}, {X: 3, Y: 1}})
+			junkTree(t.PolyPathBase)
 			o := junkD()
 			ok = g.c64.ExecutePolyTree64(c, f, t, &o)
 			tree = flattenTree(t.PolyPathBase, 1, false)
@@ -236,7 +254,7 @@ func replayLife(r *rand.Rand, w *writer, h lifeHist, histStr string) {
 			continue
 		}
 		e := &EngEv{Ev: "EngExec", Chk: []string{"C12"}, Id: 1, Form: op.Form, Ct: op.Ct, Fr: op.Fr}
-		e.Out = safeCall(func() { e.Sol, e.SolOpen, e.Tree, e.Ok = g.exec(op.Form, op.Ct, op.Fr) })
+		e.Out = safeCall(func() { e.Sol, e.SolOpen, e.Tree, e.Ok = g.exec(op.Form, op.Ct, op.Fr, true) })
 		nexec++
 		// fresh engine, same add sequence, no earlier executions
 		f := newEng(h.Kind, prec)
@@ -252,7 +270,7 @@ func replayLife(r *rand.Rand, w *writer, h lifeHist, histStr string) {
 				clip = append(clip, a.paths...)
 			}
 		}
-		safeCall(func() { e.Fresh.Sol, e.Fresh.SolOpen, e.Fresh.Tree, _ = f.exec(op.Form, op.Ct, op.Fr) })
+		safeCall(func() { e.Fresh.Sol, e.Fresh.SolOpen, e.Fresh.Tree, _ = f.exec(op.Form, op.Ct, op.Fr, false) })
 		// fresh engine, paths merged into one call per kind, reversed path order
 		p := newEng(h.Kind, prec)
 		rv := func(s Paths) Paths {
@@ -272,7 +290,7 @@ func replayLife(r *rand.Rand, w *writer, h lifeHist, histStr string) {
 			p.add(rv(subj), 0, false)
 		}
 		safeCall(func() {
-			s, _, t, _ := p.exec(op.Form, op.Ct, op.Fr)
+			s, _, t, _ := p.exec(op.Form, op.Ct, op.Fr, false)
 			if op.Form == "tree" {
 				s = Paths{}
 				for _, n := range t {
